@@ -605,6 +605,22 @@ def m_bsearch(ex, c, args, m):
     kb = k_at(base)
     if ex.decide(val_eq(kb, key)): return ok(U64(base))
     return err(U64(base + (1 if lt(ex, kb, key) else 0)))
+@M.add(r'^core::slice::<impl \[.*\]>::partition_point::<')
+def m_partition_point(ex, c, args, m):
+    # std: binary_search_by(|x| if pred(x) { Less } else { Greater }).unwrap_or_else(|i| i) -- same halving loop, no Equal case
+    sl, clo = args[0], args[1]
+    if isinstance(sl, Ref): sl = dd(sl)
+    if isinstance(sl, (VecVal,)): sl = SliceRef(sl.items, 0, len(sl.items))
+    def pred(i):
+        r = call_fn(ex, clo, [Ref(sl.lst, sl.start + i)])
+        return ex.decide(r) if z3.is_expr(r) else bool(r)
+    size, base = len(sl), 0
+    if size == 0: return U64(0)
+    while size > 1:
+        half = size // 2; mid = base + half
+        if pred(mid): base = mid            # Less: cmp != Greater
+        size -= half
+    return U64(base + (1 if pred(base) else 0))
 @M.add(r'^<\[.*; \d+\] as IntoIterator>::into_iter$|^<\[.*; N\] as IntoIterator>::into_iter$|^<std::array::IntoIter<.*> as IntoIterator>::into_iter$|^core::array::<impl \[.*\]>::into_iter')
 def m_arr_into_iter(ex, c, args, m):
     a = args[0]
